@@ -38,6 +38,9 @@ CHECKS["C14"] = dict(
         dict(name="TestC14WS",
              quick=dict(cases=30000, shards=3, gomaxprocs=[0, 4, 1], shrinktime="15s", timeout=600),
              thorough=dict(cases=80000, shards=6, gomaxprocs=[0, 4, 1, 2, 0, 8], timeout=1500)),
+        dict(name="TestC14WSDeadline",
+             quick=dict(cases=25, shards=8, shrinktime="15s", timeout=600),
+             thorough=dict(cases=150, shards=16, timeout=1500)),
         dict(name="TestC14GRPC",
              quick=dict(cases=36000, shards=3, gomaxprocs=[0, 4, 1], shrinktime="15s", timeout=600),
              thorough=dict(cases=100000, shards=6, gomaxprocs=[0, 4, 1, 2, 0, 8], timeout=1500)),
